@@ -1,8 +1,10 @@
 (* C25 - builtin functions honour their documentation and never panic instead
    of erroring: the part about the builtins that contain logic of their own.
    Only statements, `exact`, and Print Assumptions live here. *)
+From Coq Require Import List.
 From Verif Require Import Bytes Utf8 MiscRunes Facts_builtin BuiltinM
-  QueryEscape_proofs JSONSpace_proofs Abbreviate_proofs Capitalize_proofs.
+  QueryEscape_proofs JSONSpace_proofs Abbreviate_proofs Capitalize_proofs
+  Facts_builtinapi BuiltinApi_proofs.
 Open Scope N_scope.
 
 (* Statement over the models (None = the Go code would panic with an index or
@@ -87,6 +89,33 @@ Theorem C25_kebab_no_fault : forall U s, ToKebab_runes U s <> None.
 Proof. exact ToKebab_no_fault. Qed.
 Print Assumptions C25_kebab_no_fault.
 
+(* The wrappers of the standard library.  Generated fact (Facts_builtinapi:
+   every exported function and method of package builtin listed from the
+   sources, joined with the reviewed classification and with the table of the
+   differential sweep): every one is classified at the current hash of its
+   signature and body; a wrapper calls the function its documentation names
+   and the sweep compares it with that function; a direct wrapper is, on the
+   syntax tree, `return oracle(parameters in order)`, so it agrees with its
+   oracle on every input by construction.  That a guarded wrapper agrees with
+   its oracle outside its documented deviations is tested (differential
+   sweep), not proved. *)
+Definition C25_wrappers_statement : Prop :=
+  forall e, In e gen_builtin_api ->
+    api_class e <> 0 /\
+    ((api_class e = 1 \/ api_class e = 2) -> api_calls_oracle e = true /\ api_has_differential e = true) /\
+    (api_class e = 1 -> api_direct e = true).
+
+Theorem C25_wrappers_tied : C25_wrappers_statement.
+Proof.
+  intros e Hin. split; [exact (every_builtin_classified e Hin)|].
+  split; [exact (every_wrapper_compared e Hin)|exact (every_direct_wrapper_is_its_oracle e Hin)].
+Qed.
+Print Assumptions C25_wrappers_tied.
+
+Theorem C25_wrappers_no_stale_entry : gen_stale_api_entries = 0 /\ gen_stale_differential_entries = 0.
+Proof. exact api_no_stale_entry. Qed.
+Print Assumptions C25_wrappers_no_stale_entry.
+
 (* non-vacuity: the hypotheses are satisfiable, on concrete inputs *)
 Example C25_example_query : is_bytes [97; 32; 255; 45] = true /\
   QueryEscape [97; 32; 255; 45] = Some [97; 37; 50; 48; 37; 102; 102; 45].
@@ -108,3 +137,8 @@ Proof. vm_compute. repeat split; congruence. Qed.
 
 Example C25_example_trim : trim_json_space [32; 10; 123; 125; 9] = Some [123; 125] /\ trim_json_space [32; 10] = Some [].
 Proof. vm_compute. split; reflexivity. Qed.
+
+Example C25_example_wrappers :
+  (exists e, In e gen_builtin_api /\ api_class e = 1 /\ api_direct e = true /\ api_has_differential e = true) /\
+  (exists e, In e gen_builtin_api /\ api_class e = 2 /\ api_calls_oracle e = true /\ api_has_differential e = true).
+Proof. exact api_examples. Qed.
